@@ -205,7 +205,10 @@ def handleSeq (id mode n log : String) (obs : List String) : String :=
     let tls := id.startsWith "t"
     -- TLS sequences: a health check on a fresh connection after EACH fault
     let specTls := !tls || nh ≥ nf + 1
-    out id agree (b2s (spec && specTls)) s!"{if tls then "tls-" else ""}seq-{mode}-n{bucket n}" "-"
+    let fdx := id.startsWith "x"
+    -- `xn…`: the harness could not exhaust the process's descriptors (no verdict)
+    if id.startsWith "xn" then out id true "na" "fdx-not-exhausted" "-" model else
+    out id agree (b2s (spec && specTls)) s!"{if fdx then "fdx-" else if tls then "tls-" else ""}seq-{mode}-n{bucket n}" "-"
       (model ++ s!" faults={nf} healths={nh}")
   | _, _, _ => bad id "parse"
 
